@@ -48,6 +48,7 @@ def tasks(tier):
                 for part in range(8):
                     t.append(dict(kind='forms', mode=mode, ignorecase=ic, thorough=True, part=part, parts=8))
         t.append(dict(kind='invalid', mode=mode))
+        t.append(dict(kind='history', mode=mode))
     return t
 
 
@@ -295,11 +296,59 @@ def run_invalid(task, acc):
                     acc.flags['rejected'] += 1
 
 
+def run_history(task, acc):
+    """The same pattern used repeatedly on ONE object while its configuration changes between the calls
+    (ignorecase toggled, other patterns in between): every use must mean what a fresh object gives."""
+    bytes_mode = task['mode'] == 'bytes'
+    nat = (lambda s: s.encode('utf-8')) if bytes_mode else (lambda s: s)
+    enc = None if bytes_mode else task['mode']
+    entries = {'expect': lambda sp, p: sp.expect(p),
+               'expect-list': lambda sp, p: sp.expect([p, TIMEOUT]),
+               'compile_pattern_list': lambda sp, p: sp.expect_list(sp.compile_pattern_list(p)),
+               'expect_exact': lambda sp, p: sp.expect_exact(p)}
+    for p in ('ab', 'A', 'a.b', 'b$'):
+        for stream in ('xAB\n', 'ab', 'a\nb', 'Ab\nB'):
+            for hist in itertools.product((False, True), repeat=3):
+                for ename, call in entries.items():
+                    CLOCK.reset()
+                    chunks = []
+                    sp = ScriptSpawn(lambda size, timeout: chunks.pop(0) if chunks else TIMEOUT, timeout=5, encoding=enc)
+                    for step, ic in enumerate(hist):
+                        sp.ignorecase = ic
+                        sp.buffer = nat('')
+                        chunks[:] = [stream.encode('utf-8')]
+                        try:
+                            got = (call(sp, nat(p)), sp.before, sp.after)
+                        except TIMEOUT:
+                            got = ('TIMEOUT', sp.before, None)
+                        # fresh object with the same configuration
+                        ref_chunks = [stream.encode('utf-8')]
+                        ref = ScriptSpawn(lambda size, timeout: ref_chunks.pop(0) if ref_chunks else TIMEOUT, timeout=5, encoding=enc)
+                        ref.ignorecase = ic
+                        try:
+                            want = (call(ref, nat(p)), ref.before, ref.after)
+                        except TIMEOUT:
+                            want = ('TIMEOUT', ref.before, None)
+                        acc.execs += 2
+                        acc.transitions += 1
+                        if len(set(hist[:step + 1])) > 1:
+                            acc.nontrivial += 1
+                        acc.outcomes['history:%s' % (want[0],)] += 1
+                        if got != want:
+                            acc.violation('%s:history:%s' % (task['mode'], ename),
+                                          'pattern %r via %s on one object, ignorecase history %r, step %d on stream %r: got %r, a fresh object gives %r'
+                                          % (p, ename, hist, step, stream, got, want),
+                                          dict(task=task, what='history'))
+                            break
+
+
 def run_task(task):
     install_clock()
     acc = Acc()
     if task['kind'] == 'forms':
         run_forms(task, acc)
+    elif task['kind'] == 'history':
+        run_history(task, acc)
     else:
         run_invalid(task, acc)
     acc.states = len(acc.outcomes)
@@ -315,6 +364,8 @@ def replay(spec):
     acc = Acc()
     if spec['task']['kind'] == 'forms':
         run_forms(spec['task'], acc, only=(spec['p'], spec['stream']))
+    elif spec['task']['kind'] == 'history':
+        run_history(spec['task'], acc)
     else:
         run_invalid(spec['task'], acc)
     out = {'violation': None, 'keys': sorted(acc.violations)}
